@@ -130,7 +130,11 @@ def plan_scope(level="quick"):
     for s1 in (1, 3):
         plans2.append([("a", s1, 2), ("b", s1, 1)])
         plans2.append([("a", s1, 1), ("b", s1 + 1, 2)])
-    plans3 = [[("a", 0, 1), ("b", 0, 1), ("c", 0, 1)],
+    # plan listed out of start order (the telescope walks the list in order)
+    for s2, d1, d2 in ((1, 2, 1), (2, 1, 1), (3, 3, 3), (0, 2, 2), (4, 4, 1)):
+        plans2.append([("b", s2, d2), ("a", 0, d1)])
+    plans3 = [[("c", 2, 1), ("a", 0, 2), ("b", 1, 2)],
+              [("a", 0, 1), ("b", 0, 1), ("c", 0, 1)],
               [("a", 0, 2), ("b", 1, 2), ("c", 2, 1)],
               [("a", 0, 1), ("b", 1, 1), ("c", 2, 1)],
               [("a", 1, 3), ("b", 2, 1), ("c", 6, 2)],
